@@ -107,6 +107,15 @@ func RunCase(goderive string, c *Case, v Variant, dir string) (*Obs, error) {
 	if len(srcs2) > 0 {
 		args = append(args, "./q")
 	}
+	for _, d := range c.ExtraPkgs {
+		args = append(args, "./"+d)
+	}
+	if c.PreRunP {
+		pre := exec.Command(goderive, append(append(append([]string{}, c.GoderiveArgs...), v.Args()...), "./p")...)
+		pre.Dir = dir
+		pre.Env = append(os.Environ(), "GOFLAGS=-mod=mod", "GOPROXY=off", "GOMEMLIMIT=2GiB")
+		_ = pre.Run()
+	}
 	ctx, cancel := context.WithTimeout(context.Background(), 60*time.Second)
 	defer cancel()
 	cmd := exec.CommandContext(ctx, goderive, args...)
@@ -171,6 +180,20 @@ func RunCase(goderive string, c *Case, v Variant, dir string) (*Obs, error) {
 	readBack(obs, c, files, pdir)
 	if len(srcs2) > 0 {
 		readBack2(obs, c, filepath.Join(dir, "q"))
+	}
+	if c.GoBuild && obs.TypeErr == "" {
+		bctx, bcancel := context.WithTimeout(context.Background(), 120*time.Second)
+		defer bcancel()
+		b := exec.CommandContext(bctx, "go", "build", "./...")
+		b.Dir = dir
+		b.Env = append(os.Environ(), "GOFLAGS=-mod=mod", "GOPROXY=off")
+		if outb, err := b.CombinedOutput(); err != nil {
+			msg := string(outb)
+			if len(msg) > 400 {
+				msg = msg[:400]
+			}
+			obs.TypeErr = "go build ./...: " + msg
+		}
 	}
 	return obs, nil
 }
